@@ -324,6 +324,11 @@ func fatalSite(stderr string) string {
 type knownFinding struct {
 	Property    string `json:"property"`
 	Fingerprint string `json:"fingerprint"`
+	// optional: the finding is ALSO recognised by rule + a text that its detail must contain (the panic
+	// value), whatever function the panic surfaces in — a refactoring that re-raises a worker's panic on
+	// another goroutine moves the site but not the defect
+	Rule           string `json:"rule,omitempty"`
+	DetailContains string `json:"detail_contains,omitempty"`
 	What        string `json:"what"`
 	Status      string `json:"status"` // "open" (recorded, not repaired) or "fixed"
 	Commit      string `json:"commit,omitempty"`
@@ -454,8 +459,9 @@ func runDriver(prop, tier string, seed int64, from, count, nworkers int, verif, 
 		f := firstByFP[fp]
 		isKnown := false
 		for _, k := range known {
-			if k.Status == "open" && k.Property == prop && k.Fingerprint == fp {
-				knownHits[fp]++
+			if k.Status == "open" && k.Property == prop && (k.Fingerprint == fp ||
+				(k.DetailContains != "" && k.Rule == f.v.Rule && strings.Contains(f.v.Detail, k.DetailContains))) {
+				knownHits[k.Fingerprint]++
 				isKnown = true
 			}
 		}
